@@ -120,6 +120,7 @@ func c10Shard(t Tier, shard, nshards int) (run *report.Run) {
 	}
 	dl := deadline(t, 100*time.Second, 20*time.Minute)
 	cases := buildShard(e, maxLen, shard, nshards)
+	cases = append(cases, upgradeCases(e, shard, nshards)...) // histories containing an in-process software upgrade
 	var mu sync.Mutex
 	evals, nontrivial := 0, 0
 	capHit := false
